@@ -531,6 +531,7 @@ class Engine:
         self.auto_inline = True   # crate-local acyclic helpers are executed, not havocked ...
         self.keep = []            # ... except callees matching these regexes (kept as trace events)
         self.auto_inline_max_blocks = 80
+        self.inline_cyclic = False  # bounded-loop mode: cyclic crate functions are executed too (max_visits per block)
         self.auto_inline_depth = 5
         self.inlined_fns = set()
         self._index = None
@@ -554,15 +555,15 @@ class Engine:
         for name, fn in self.funcs.items():
             if fn.kind != "fn" or "{closure" in name or "promoted" in name:
                 continue
-            m = re.search(r"<impl at (src/[\w/]+\.rs):(\d+):\d+: \d+:\d+>::([A-Za-z_]\w*)$", name)
+            m = re.search(r"<impl at (src/[\w/]+\.rs):(\d+):(\d+): \d+:(\d+)>::([A-Za-z_]\w*)$", name)
             if m:
-                key = (m.group(1), int(m.group(2)))
+                key = (m.group(1), int(m.group(2)), int(m.group(3)), int(m.group(4)))
                 if key not in impl_cache:
-                    impl_cache[key] = impl_header(self.repo_root, key[0], key[1])
+                    impl_cache[key] = impl_header(self.repo_root, key[0], key[1], key[2], key[3])
                 trait, selfty = impl_cache[key]
                 if selfty is None:
                     continue
-                meth = m.group(3)
+                meth = m.group(5)
                 idx.setdefault("%s::%s" % (selfty, meth), []).append(fn)
                 if trait:
                     idx.setdefault("<%s as %s>::%s" % (selfty, trait, meth), []).append(fn)
@@ -793,10 +794,67 @@ class Engine:
             n.tag = bv64(self.variant_index(m.group(1), m.group(2)))
             n.variants = {}
             return n
+        # promoted constants / consts / statics whose body is in the dump: evaluate the body
+        body = self.const_body(t)
+        if body is not None:
+            return copy_node(body)
         # anything else: an opaque constant, identified by its text
         n = Node("const:" + t, ty=ty_hint)
         n.conc = ("const", t)
         return n
+
+    def const_body(self, text):
+        cache = self.__dict__.setdefault("_consts", {})
+        key = strip_lifetimes(text).replace("::<>", "")
+        if key in cache:
+            return cache[key]
+        fn = None
+        cands = [strip_lifetimes(text), key, re.sub(r"::<[^>]*>", "", strip_lifetimes(text))]
+        for name, f in self.funcs.items():
+            if f.kind != "fn" or "promoted" in name:
+                nn = strip_lifetimes(name)
+                if nn in cands or re.sub(r"<impl at [^>]*>", "", nn) in cands:
+                    fn = f
+                    break
+                # `Type::method::promoted[0]` vs dump name `module::<impl at ..>::method::promoted[0]`
+                if "promoted" in nn and nn.split("::")[-1] == key.split("::")[-1]:
+                    a = [x for x in re.sub(r"<impl at [^>]*>", "", nn).split("::") if x]
+                    b = [x for x in key.split("::") if x]
+                    if len(a) >= 2 and len(b) >= 2 and a[-2] == b[-2] and (len(a) < 3 or len(b) < 3 or a[-3] == b[-3]
+                                                                              or "closure" not in a[-2]):
+                        fn = f
+                        break
+        val = None
+        if fn is not None:
+            try:
+                val = self.eval_straight(fn)
+            except Unsupported:
+                val = None
+        cache[key] = val
+        return val
+
+    def eval_straight(self, fn):
+        """Evaluate a body without branches (promoted constants)."""
+        st = State()
+        fr = Frame(fn)
+        st.frames.append(fr)
+        saved = self.cur_state
+        self.cur_state = st
+        try:
+            bb = 0
+            for _ in range(64):
+                stmts, term = fn.blocks[bb]
+                for s_ in stmts:
+                    self.statement(st, fr, s_)
+                if term[0] == "return":
+                    return fr.locals.get(0)
+                if term[0] == "goto":
+                    bb = term[1]
+                    continue
+                raise Unsupported("const body with terminator %s" % term[0])
+        finally:
+            self.cur_state = saved
+        raise Unsupported("const body too long")
 
     # ---------------- rvalues
     def rvalue(self, st, frame, rv, dest_ty=None):
@@ -1258,7 +1316,7 @@ class Engine:
         if target is None and self.auto_inline and not any(rx.search(norm) for rx in self.keep):
             target = self.resolve(norm, len(args))
             if target is not None:
-                if (not target.is_acyclic() or len(target.blocks) > self.auto_inline_max_blocks
+                if ((not self.inline_cyclic and not target.is_acyclic()) or len(target.blocks) > self.auto_inline_max_blocks
                         or len(st.frames) > self.auto_inline_depth
                         or any(f.fn is target for f in st.frames)):
                     target = None
@@ -1408,14 +1466,22 @@ class Engine:
 _impl_rx = re.compile(r"^\s*(?:unsafe\s+)?impl\s*(<[^>]*(?:<[^>]*>[^>]*)*>)?\s*(.*?)\s*(?:where\b.*)?\{?\s*$")
 
 
-def impl_header(repo_root, relfile, line):
-    """(trait_head|None, self_type_head|None) of the `impl` that starts at relfile:line."""
+def impl_header(repo_root, relfile, line, col=None, endcol=None):
+    """(trait_head|None, self_type_head|None) of the `impl` that starts at relfile:line (or of the derive
+    attribute at line:col..endcol)."""
     try:
         with open("%s/%s" % (repo_root, relfile)) as f:
             lines = f.read().split("\n")
     except OSError:
         return (None, None)
     text = lines[line - 1] if 0 < line <= len(lines) else ""
+    if "derive(" in text and col is not None:
+        trait = text[col - 1:endcol - 1].strip().split("::")[-1]
+        for k in range(line, min(line + 12, len(lines))):
+            mm = re.match(r"\s*(?:pub(?:\([^)]*\))?\s+)?(?:struct|enum|union)\s+([A-Za-z_]\w*)", lines[k])
+            if mm:
+                return (trait or None, mm.group(1))
+        return (None, None)
     # header may span lines
     k = line
     while "{" not in text and k < len(lines) and k < line + 6:
